@@ -10,7 +10,8 @@ from typing import Any, Optional
 
 from dateutil import parser
 
-from ruamel.yaml.comments import CommentedSeq, CommentedMap, TaggedScalar
+from ruamel.yaml.comments import (
+    CommentedSeq, CommentedMap, CommentedSet, TaggedScalar)
 from ruamel.yaml.scalarbool import ScalarBoolean
 from ruamel.yaml.scalarfloat import ScalarFloat
 from ruamel.yaml.scalarint import ScalarInt
@@ -563,7 +564,7 @@ class Nodes:
 
         Returns:  (bool) True = node is a leaf; False, otherwise
         """
-        return not isinstance(node, (dict, list, set))
+        return not isinstance(node, (dict, list, set, CommentedSet))
 
     @staticmethod
     def node_is_aoh(node: Any, **kwargs) -> bool:
